@@ -55,7 +55,8 @@ type canon struct {
 
 var canonBuiltins = map[string]bool{"nil": true, "true": true, "false": true, "append": true, "len": true, "cap": true,
 	"make": true, "new": true, "string": true, "int": true, "uint": true, "error": true, "panic": true, "copy": true,
-	"delete": true, "_": true}
+	"delete": true, "_": true, "clear": true, "min": true, "max": true, "any": true, "byte": true, "rune": true, "bool": true,
+	"int64": true, "uint64": true, "float64": true, "recover": true, "close": true, "print": true, "println": true}
 
 func (p *tPkg) globals() map[string]bool {
 	g := map[string]bool{}
@@ -363,6 +364,23 @@ func (c *canon) stmt(s ast.Stmt) string {
 		return strings.Join(out, ";") // a zero-valued `var x T` declares a name and decides nothing
 	case *ast.IncDecStmt:
 		return c.expr(x.X) + x.Tok.String()
+	case *ast.ForStmt:
+		defer c.scope()()
+		init, cond, post := "", "", ""
+		if x.Init != nil {
+			init = c.stmt(x.Init)
+		}
+		if x.Cond != nil {
+			cond = c.expr(x.Cond)
+		}
+		if x.Post != nil {
+			post = c.stmt(x.Post)
+		}
+		return "for " + init + ";" + cond + ";" + post + c.block(x.Body)
+	case *ast.DeferStmt:
+		return "defer " + c.expr(x.Call)
+	case *ast.GoStmt:
+		return "go " + c.expr(x.Call)
 	case *ast.BranchStmt: // break / continue / goto / fallthrough
 		if x.Label != nil {
 			return x.Tok.String() + " " + x.Label.Name
